@@ -30,6 +30,8 @@ use std::sync::atomic::AtomicU8;
 use std::sync::atomic::Ordering::Relaxed;
 use std::sync::Arc;
 
+use crate::benign_error::is_absent_file_error;
+use crate::cache_dir::validate_file_name;
 use crate::cache_dir::CacheDir;
 use crate::multiplicative_hash::MultiplicativeHash;
 use crate::trigger::PeriodicTrigger;
@@ -107,12 +109,23 @@ impl Shard {
     }
 
     /// Returns whether the file `name` exists in this shard.
-    fn file_exists(&mut self, name: &str) -> bool {
+    ///
+    /// Only absence means "no": any other failure to stat the file
+    /// is reported, otherwise a write could land in the other shard
+    /// and shadow the entry that is already here.
+    fn file_exists(&mut self, name: &str) -> Result<bool> {
+        // We are about to append `name` to a path.
+        let name = validate_file_name(name)?;
+
         self.shard_dir.push(name);
         let result = std::fs::metadata(&self.shard_dir);
         self.shard_dir.pop();
 
-        result.is_ok()
+        match result {
+            Ok(_) => Ok(true),
+            Err(e) if is_absent_file_error(&e) => Ok(false),
+            Err(e) => Err(e),
+        }
     }
 }
 
@@ -338,7 +351,7 @@ impl Cache {
 
         // If the file does not already exist in the secondary shard,
         // use the primary.
-        if !shard.file_exists(key.name) {
+        if !shard.file_exists(key.name)? {
             shard = shard.replace_shard(h1);
         }
 
@@ -375,7 +388,7 @@ impl Cache {
 
         // If the file does not already exist in the secondary shard,
         // use the primary.
-        if !shard.file_exists(key.name) {
+        if !shard.file_exists(key.name)? {
             shard = shard.replace_shard(h1);
         }
 
